@@ -32,48 +32,96 @@ Proof. apply desc_eq_structural. exact eq_structural. Qed.
 
 Local Open Scope N_scope.
 
-(* the descriptor order never panics and its Equal is structural equality *)
+(* ------------------------------------------------------------------ the descriptor order is a total order
+   (variant order, then field-wise lexicographic comparison; Tr: internal key, then the (depth, leaf) list),
+   assembled from the generic lemmas: products, lists and pull-backs of total orders are total orders *)
+Local Opaque cmp_iter spec_cmp.
 Section DescCmp.
   Variables kf kx : key -> key -> comparison.
   Hypothesis to_kf : total_order kf.
   Hypothesis to_kx : total_order kx.
 
-  Lemma leaves_cmp_spec : forall l l', exists c, leaves_cmp cmp_iter kx l l' = EqOrdModel.Ok c /\ (c = Eq <-> l = l').
+  Lemma to_spec k : total_order k -> total_order (spec_cmp k).
+  Proof. intro T. split; [apply spec_cmp_eq | apply spec_cmp_antisym | apply spec_cmp_trans]; exact T. Qed.
+
+  Definition leaf_cmp : N * ms -> N * ms -> comparison := prod_cmp N.compare (spec_cmp kx).
+  Definition dtuple := ((N * N) * (ms * (key * (key * list (N * ms)))))%type.
+  Definition dtuple_cmp : dtuple -> dtuple -> comparison :=
+    prod_cmp (prod_cmp N.compare N.compare) (prod_cmp (spec_cmp kf) (prod_cmp kf (prod_cmp kx (list_lex leaf_cmp)))).
+
+  Definition denc (d : desc) : dtuple :=
+    match d with
+    | DBare m => (variant_rank d, (m, (0, (0, []))))
+    | DShWsh m | DSh m | DWsh m => (variant_rank d, (m, (0, (0, []))))
+    | DPkh k | DWpkh k | DShWpkh k => (variant_rank d, (MFalse, (k, (0, []))))
+    | DTr ik ls => (variant_rank d, (MFalse, (0, (ik, ls))))
+    end%N.
+
+  Definition desc_spec_cmp (a b : desc) : comparison := dtuple_cmp (denc a) (denc b).
+
+  Lemma to_dtuple : total_order dtuple_cmp.
   Proof.
-    induction l as [|[d m] r IH]; destruct l' as [|[d' m'] s]; cbn.
-    - exists Eq. split; [reflexivity | split; reflexivity].
-    - exists Lt. split; [reflexivity | split; discriminate].
-    - exists Gt. split; [reflexivity | split; discriminate].
-    - destruct (d ?= d') eqn:E.
-      + apply N.compare_eq_iff in E. subst d'. rewrite (cmp_iter_spec kx to_kx m m').
-        destruct (spec_cmp kx m m') eqn:E2.
-        * apply (spec_cmp_eq kx to_kx) in E2. subst m'. destruct (IH s) as [c [Hc Hi]]. exists c. split; [exact Hc|].
-          rewrite Hi. split; [congruence | intro H; injection H; auto].
-        * exists Lt. split; [reflexivity|]. split; [discriminate|]. intro H. injection H as <- _.
-          rewrite (proj2 (spec_cmp_eq kx to_kx m m) eq_refl) in E2. discriminate.
-        * exists Gt. split; [reflexivity|]. split; [discriminate|]. intro H. injection H as <- _.
-          rewrite (proj2 (spec_cmp_eq kx to_kx m m) eq_refl) in E2. discriminate.
-      + exists Lt. split; [reflexivity|]. split; [discriminate|]. intro H. injection H as <- _ _. rewrite N.compare_refl in E. discriminate.
-      + exists Gt. split; [reflexivity|]. split; [discriminate|]. intro H. injection H as <- _ _. rewrite N.compare_refl in E. discriminate.
+    unfold dtuple_cmp, leaf_cmp. repeat (apply to_prod || apply to_list); auto using to_N, to_spec.
   Qed.
 
-  Theorem desc_cmp_spec a b : exists c, desc_cmp cmp_iter kf kx a b = EqOrdModel.Ok c /\ (c = Eq <-> a = b).
+  Lemma denc_inj a b : denc a = denc b -> a = b.
+  Proof. destruct a, b; cbn; intro H; try discriminate H; injection H; intros; subst; reflexivity. Qed.
+
+  Lemma to_desc_spec : total_order desc_spec_cmp.
+  Proof. apply (to_pullback desc_spec_cmp dtuple_cmp denc denc_inj); [reflexivity | apply to_dtuple]. Qed.
+
+  Lemma leaves_cmp_lex : forall l l', leaves_cmp cmp_iter kx l l' = EqOrdModel.Ok (list_lex leaf_cmp l l').
   Proof.
-    assert (M : forall x y, exists c, cmp_iter kf x y = EqOrdModel.Ok c /\ (c = Eq <-> x = y)).
-    { intros x y. exists (spec_cmp kf x y). split; [apply cmp_iter_spec; exact to_kf | apply spec_cmp_eq; exact to_kf]. }
-    assert (K : forall x y : key, exists c, EqOrdModel.Ok (kf x y) = EqOrdModel.Ok c /\ (c = Eq <-> x = y)).
-    { intros x y. exists (kf x y). split; [reflexivity | apply (to_eq _ to_kf)]. }
-    destruct a, b; cbn;
-      try (eexists; split; [reflexivity | split; discriminate]);
-      try (destruct (M m m0) as [c [-> Hi]]; exists c; split; [reflexivity | rewrite Hi; split; [congruence | intro H; injection H; auto]]);
-      try (destruct (K k k0) as [c [Hc Hi]]; exists c; split; [exact Hc | rewrite Hi; split; [congruence | intro H; injection H; auto]]).
-    destruct (kx ik ik0) eqn:E.
-    - apply (to_eq _ to_kx) in E. subst ik0. destruct (leaves_cmp_spec leaves leaves0) as [c [-> Hi]]. exists c.
-      split; [reflexivity | rewrite Hi; split; [congruence | intro H; injection H; auto]].
-    - exists Lt. split; [reflexivity|]. split; [discriminate|]. intro H. injection H as <- _. rewrite (to_refl _ to_kx) in E. discriminate.
-    - exists Gt. split; [reflexivity|]. split; [discriminate|]. intro H. injection H as <- _. rewrite (to_refl _ to_kx) in E. discriminate.
+    induction l as [|[d m] r IH]; destruct l' as [|[d' m'] s]; cbn [leaves_cmp list_lex]; try reflexivity.
+    rewrite (cmp_iter_spec kx to_kx m m'), IH.
+    change (leaf_cmp (d, m) (d', m')) with (lexc (d ?= d')%N (spec_cmp kx m m')).
+    destruct (d ?= d')%N; cbn [lexc]; try reflexivity. destruct (spec_cmp kx m m'); reflexivity.
   Qed.
+
+  (* the code's comparison never panics and is the specification order *)
+  Theorem desc_cmp_is_spec a b : desc_cmp cmp_iter kf kx a b = EqOrdModel.Ok (desc_spec_cmp a b).
+  Proof.
+    pose proof (to_refl _ (to_spec kf to_kf) MFalse) as R1.
+    pose proof (to_refl kf to_kf 0%N) as R2. pose proof (to_refl kx to_kx 0%N) as R3.
+    unfold desc_spec_cmp, dtuple_cmp, prod_cmp.
+    destruct a, b; cbn; rewrite ?leaves_cmp_lex, ?(cmp_iter_spec kf to_kf), ?R1, ?R2, ?R3; cbn; try reflexivity;
+      repeat match goal with
+             | |- context [spec_cmp kf ?x ?y] => destruct (spec_cmp kf x y)
+             | |- context [kf ?x ?y] => destruct (kf x y)
+             | |- context [kx ?x ?y] => destruct (kx x y)
+             | |- context [list_lex leaf_cmp ?x ?y] => destruct (list_lex leaf_cmp x y)
+             end; reflexivity.
+  Qed.
+
+  Theorem desc_cmp_total_order :
+    (forall a b, exists c, desc_cmp cmp_iter kf kx a b = EqOrdModel.Ok c) /\
+    (forall a b, desc_cmp cmp_iter kf kx a b = EqOrdModel.Ok Eq <-> a = b) /\
+    (forall a b c, desc_cmp cmp_iter kf kx a b = EqOrdModel.Ok c -> desc_cmp cmp_iter kf kx b a = EqOrdModel.Ok (CompOpp c)) /\
+    (forall a b c, desc_cmp cmp_iter kf kx a b = EqOrdModel.Ok Lt -> desc_cmp cmp_iter kf kx b c = EqOrdModel.Ok Lt ->
+                   desc_cmp cmp_iter kf kx a c = EqOrdModel.Ok Lt).
+  Proof.
+    pose proof to_desc_spec as T. repeat split.
+    - intros a b. eexists. apply desc_cmp_is_spec.
+    - rewrite desc_cmp_is_spec. intro H. injection H as H. apply (to_eq _ T). exact H.
+    - intros ->. rewrite desc_cmp_is_spec. f_equal. apply (to_refl _ T).
+    - intros a b c. rewrite !desc_cmp_is_spec. intro H. injection H as <-. f_equal. apply (to_antisym _ T).
+    - intros a b c. rewrite !desc_cmp_is_spec. intros H1 H2. injection H1 as H1. injection H2 as H2. f_equal.
+      apply (to_trans _ T _ _ _ H1 H2).
+  Qed.
+
+  (* Ord's Equal coincides with == *)
+  Theorem desc_cmp_eq_iff_eq a b : desc_cmp cmp_iter kf kx a b = EqOrdModel.Ok Eq <-> desc_eq eq_iter a b = true.
+  Proof. rewrite desc_eq_iter_structural. apply desc_cmp_total_order. Qed.
 End DescCmp.
+
+Local Open Scope N_scope.
+Example desc_cmp_examples :
+  desc_cmp cmp_iter N.compare N.compare (DWsh (w_pk 0)) (DTr 0 []) = EqOrdModel.Ok Lt /\
+  desc_cmp cmp_iter N.compare N.compare (DShWsh (w_pk 0)) (DSh (w_pk 0)) = EqOrdModel.Ok Lt /\
+  desc_cmp cmp_iter N.compare N.compare (DTr 0 [(1, w_pk 0); (1, w_pk 1)]) (DTr 0 [(1, w_pk 1); (1, w_pk 0)]) = EqOrdModel.Ok Lt /\
+  desc_cmp cmp_iter N.compare N.compare (DTr 0 [(1, w_pk 0); (1, w_pk 1)]) (DTr 0 []) = EqOrdModel.Ok Gt.
+Proof. vm_compute. repeat split. Qed.
+Local Close Scope N_scope.
 
 (* ------------------------------------------------------------------ the cache is not an input of == / cmp *)
 Theorem cdesc_eq_history_independent meq a b c c' :
@@ -91,3 +139,20 @@ Proof. unfold cdesc_eq. apply desc_eq_iter_structural. Qed.
 Theorem cdesc_warm_clone_eq spend x :
   cdesc_eq eq_iter (cd_clone (cd_warm spend x)) x = true /\ cdesc_eq eq_iter (cd_warm spend x) (cd_fresh (cd_desc x)) = true.
 Proof. split; apply cdesc_eq_structural; reflexivity. Qed.
+
+(* the same laws for values with arbitrary cache histories: the order is on the structures *)
+Theorem cdesc_cmp_total_order kf kx : total_order kf -> total_order kx ->
+  (forall x y, exists c, cdesc_cmp cmp_iter kf kx x y = EqOrdModel.Ok c) /\
+  (forall x y, cdesc_cmp cmp_iter kf kx x y = EqOrdModel.Ok Eq <-> cd_desc x = cd_desc y) /\
+  (forall x y c, cdesc_cmp cmp_iter kf kx x y = EqOrdModel.Ok c -> cdesc_cmp cmp_iter kf kx y x = EqOrdModel.Ok (CompOpp c)) /\
+  (forall x y z, cdesc_cmp cmp_iter kf kx x y = EqOrdModel.Ok Lt -> cdesc_cmp cmp_iter kf kx y z = EqOrdModel.Ok Lt ->
+                 cdesc_cmp cmp_iter kf kx x z = EqOrdModel.Ok Lt) /\
+  (forall x y, cdesc_cmp cmp_iter kf kx x y = EqOrdModel.Ok Eq <-> cdesc_eq eq_iter x y = true).
+Proof.
+  intros Tf Tx. destruct (desc_cmp_total_order kf kx Tf Tx) as [A [B [C D]]].
+  assert (E : forall x y, cdesc_cmp cmp_iter kf kx x y = desc_cmp cmp_iter kf kx (cd_desc x) (cd_desc y)) by reflexivity.
+  assert (E2 : forall x y, cdesc_eq eq_iter x y = desc_eq eq_iter (cd_desc x) (cd_desc y)) by reflexivity.
+  split; [intros x y; rewrite E; apply A|]. split; [intros x y; rewrite E; apply B|].
+  split; [intros x y c; rewrite !E; apply C|].
+  split; [intros x y z; rewrite !E; apply D | intros x y; rewrite E, E2; apply desc_cmp_eq_iff_eq; assumption].
+Qed.
